@@ -6,6 +6,7 @@ import (
 	"bytes"
 	"encoding/csv"
 	"encoding/hex"
+	"encoding/json"
 	"fmt"
 	"io"
 	"math"
@@ -135,6 +136,7 @@ type csvCase struct {
 	failAt      int // storage fault: fail the k-th Write; -1 none
 	note        string
 	expectFloor []int64 // alt accepted time (floor) for negative ns
+	big         bool    // size class > 1024 rows: monitors only (no model op)
 }
 
 func (cs *csvCase) tcEff() string {
@@ -621,7 +623,7 @@ func (e *env) runCSV(cs *csvCase) {
 	}
 
 	// ---- model op (records as encoding/csv tokenises them: the model's parameter)
-	if cs.failAt < 0 && rerr == nil {
+	if cs.failAt < 0 && rerr == nil && !cs.big {
 		delim := cs.delim
 		view, verr := readerView(data, delim)
 		if verr == nil || !cs.delimOK {
@@ -637,7 +639,7 @@ func (e *env) runCSV(cs *csvCase) {
 				c.Op(fmt.Sprintf("csv %s %d %s %s %s", d, cs.skipEff(), hx(cs.tcEff()), fmtLabel(cs.fmtEff()), arg), out)
 			}
 		}
-	} else if cs.failAt >= 0 && rerr == nil {
+	} else if cs.failAt >= 0 && rerr == nil && !cs.big {
 		view, verr := readerView(data, cs.delim)
 		if verr == nil {
 			if arg, ok := recsArg(view, cs.fmtEff()); ok {
@@ -651,11 +653,19 @@ func (e *env) runCSV(cs *csvCase) {
 			}
 		}
 	}
-	c.Case(fmt.Sprintf("csv %x %v", data, cs.query()), true)
+	if cs.big {
+		c.Case(fmt.Sprintf("csv-big rows=%d cols=%d len=%d %v", len(cs.rows), len(cs.header), len(data), cs.query()), true)
+		c.Tag(fmt.Sprintf("csv:big:%d", len(cs.rows)))
+	} else {
+		c.Case(fmt.Sprintf("csv %x %v", data, cs.query()), true)
+	}
 
 	// ---- property monitors (ground truth = the generator's rows)
 	if len(elsewhere) > 0 {
 		c.Fail("wrong-target:csv", fmt.Sprintf("files stored outside %s/%s/: %v", cs.db, cs.meas, elsewhere), cs.replay(data, status))
+	}
+	if !accepted && cs.failAt >= 0 && status >= 500 {
+		defer e.retryAfterFault(cs, data, len(rows))
 	}
 	if !accepted {
 		if len(rows) > 0 {
@@ -667,10 +677,57 @@ func (e *env) runCSV(cs *csvCase) {
 		}
 		return
 	}
+	// an acknowledged import must be in storage when the response is sent (the handler flushes
+	// synchronously): rows_imported = N  =>  N rows stored
+	if n, ok := rowsImported(body); ok && int(n) != len(rows) {
+		c.Fail("import-acked-but-not-stored:flush-error-swallowed", fmt.Sprintf("import answered HTTP 200 with rows_imported=%d but %d rows are in storage (storage write fault at write #%d during the request)", n, len(rows), cs.failAt), cs.replay(data, status))
+	}
 	if cs.failAt >= 0 {
 		return
 	}
 	e.monitorCSV(cs, rows, data, status)
+}
+
+func rowsImported(body string) (int64, bool) {
+	var r struct {
+		Result struct {
+			Rows *int64 `json:"rows_imported"`
+		} `json:"result"`
+	}
+	if json.Unmarshal([]byte(body), &r) != nil || r.Result.Rows == nil {
+		return 0, false
+	}
+	return *r.Result.Rows, true
+}
+
+// retryAfterFault: the storage refused writes during the request, works again, and the client
+// uploads the same file once more.  Afterwards every data row must be stored exactly once.
+func (e *env) retryAfterFault(cs *csvCase, data []byte, left int) {
+	c := e.c
+	status, _ := e.upload("csv", cs.db, cs.meas, cs.query(), data, cs.dbInHeader)
+	rows, _, _, rerr := e.readStored(cs.db, cs.meas)
+	c.Tag(fmt.Sprintf("csv:retry-http-%d", status))
+	if status != 200 || rerr != nil || cs.blankJunk || !cs.delimOK || cs.ridIdx < 0 || cs.timeIdx < 0 {
+		return
+	}
+	rep := cs.replay(data, status) + fmt.Sprintf(" [history: same upload first made while storage write #%d failed, then retried]", cs.failAt)
+	cnt := map[int64]int{}
+	for _, r := range rows {
+		if v, ok := r.vals["rid"]; ok && !v.null && v.kind == 'i' {
+			cnt[v.i]++
+		}
+	}
+	for j := range cs.rows {
+		switch k := cnt[int64(j+1)]; {
+		case k == 0:
+			c.Fail("row-missing:csv:retry-after-storage-fault", fmt.Sprintf("after the retry data row %d is not stored", j+1), rep)
+		case k > 1 && left > 0:
+			// consequence of the partial import the failed attempt left behind (same root cause)
+			c.Fail("partial-import-after-error:csv:storage-write-fault", fmt.Sprintf("after the retry data row %d is stored %d times (the failed attempt left %d rows)", j+1, k, left), rep)
+		case k > 1:
+			c.Fail("row-duplicated:csv:retry-after-storage-fault", fmt.Sprintf("after the retry data row %d is stored %d times although the failed attempt left nothing", j+1, k), rep)
+		}
+	}
 }
 
 func trunc(s string, n int) string {
@@ -842,7 +899,80 @@ func (e *env) csvCorpus() {
 	flt := mk("corpus:fault-second-hour", h, [][]string{{"1609459200", "1", "5"}, {"1609466400", "2", "6"}}, "epoch_s", sp("epoch_s"), []int64{1609459200000000, 1609466400000000})
 	flt.failAt = 1
 	e.runCSV(flt)
+	out0 := mk("corpus:outage-single-hour", h, [][]string{{"1609459200", "1", "5"}, {"1609459201", "2", "6"}}, "epoch_s", sp("epoch_s"), t2)
+	out0.failAt = 0
+	e.runCSV(out0)
 	e.runCSV(mk("corpus:frac", h, [][]string{{"1609459200.123", "1", "5"}, {"1609459201.29", "2", "6"}}, "epoch_s-frac", sp("epoch_s"), []int64{1609459200123000, 1609459201290000}))
+}
+
+// bigCSVCases: the size class above the importer's row pre-size estimate max(1024, size/(8*cols)):
+// more than 1024 rows of SHORT cells (and mixed widths); every stored cell is compared with the input.
+func (e *env) bigCSVCases(sizes []int) {
+	r := e.r
+	for _, n := range sizes {
+		e.seq++
+		cs := &csvCase{db: "imp", meas: fmt.Sprintf("m%d", e.seq), failAt: -1, delim: ',', delimOK: true, finalNL: r.Bool(), crlf: r.Chance(25), big: true}
+		k := r.Range(0, 4) // 2..6 columns
+		names := []string{"time", "rid"}
+		classes := []string{"", ""}
+		for i := 0; i < k; i++ {
+			names = append(names, fmt.Sprintf("c%d", i))
+			classes = append(classes, vh.Pick(r, []string{"d1", "d3", "s2", "b", "mixw", "e"}))
+		}
+		for i := len(names) - 1; i > 0; i-- {
+			j := r.Intn(i + 1)
+			names[i], names[j] = names[j], names[i]
+			classes[i], classes[j] = classes[j], classes[i]
+		}
+		cs.header = names
+		shortTime := r.Chance(60)
+		cs.unit, cs.tfmt = "epoch_s", sp("epoch_s")
+		cs.timeT, cs.expectFloor = make([]int64, n), make([]int64, n)
+		cs.timeOK, cs.timeOvf = make([]bool, n), make([]bool, n)
+		cs.rows = make([][]string, n)
+		for i, nm := range names {
+			if nm == "time" {
+				cs.timeIdx = i
+			}
+			if nm == "rid" {
+				cs.ridIdx = i
+			}
+		}
+		base := int64(1600000000 + r.Intn(100000000))
+		for j := 0; j < n; j++ {
+			sec := base + int64(j)
+			if shortTime {
+				sec = int64(1 + (j*7)%977) // 1..3 digit epochs, all inside one hour
+			}
+			cs.timeT[j], cs.expectFloor[j], cs.timeOK[j] = sec*1000000, sec*1000000, true
+			row := make([]string, len(names))
+			for i := range names {
+				switch {
+				case i == cs.timeIdx:
+					row[i] = strconv.FormatInt(sec, 10)
+				case i == cs.ridIdx:
+					row[i] = strconv.Itoa(j + 1)
+				default:
+					switch classes[i] {
+					case "d1":
+						row[i] = strconv.Itoa(r.Intn(10))
+					case "d3":
+						row[i] = strconv.Itoa(r.Intn(1000))
+					case "s2":
+						row[i] = vh.Pick(r, []string{"a", "ab", "xy", "q", "zz9"})
+					case "b":
+						row[i] = vh.Pick(r, []string{"1", "0"})
+					case "mixw":
+						row[i] = vh.Pick(r, []string{"7", "x", "", "a-much-longer-cell-value-here", "12345678901", "ok"})
+					default:
+						row[i] = ""
+					}
+				}
+			}
+			cs.rows[j] = row
+		}
+		e.runCSV(cs)
+	}
 }
 
 func (e *env) faultCases(n int) {
